@@ -12,7 +12,7 @@ from checks._c17_seams import CliSeams, run_cmd, ok, describe, fresh, real_run
 
 IDS = ["u2", "p_0", "u.x", "a1"]  # file order != sorted order; one id starts with the prefix "p_"
 IOS = [("", ".pt"), ("p_", ".pt"), ("", ".x"), ("p_", ".x")]
-OTHER = {".pt": ".x", ".x": ".pt"}
+OTHER = {".pt": ".x", ".x": ".pt", "_x.pt": ".x"}
 MAX_EXECS = 200  # cap per explored command (4 chunks = 24 orders is the largest enumerated)
 
 
@@ -128,6 +128,23 @@ def real(env, api, func_name, args, observe, base, loader=False):
     if obs != base:
         env.viol({"api": api, "symptom": "real-workers-differ-from-serial"},
                  {"serial": base, "observed": obs})
+
+
+def fresh_process(env, api, func_name, args, observe, inproc, what):
+    """The same call in a brand-new interpreter (serial): what a console invocation would give.  The
+    in-process result - obtained after other calls with different arguments - must equal it."""
+    res = real_run(func_name, list(args))
+    env.ev(api, "fresh-process")
+    env.ctx.traces += 1
+    env.ctx.count("fresh-process-runs")
+    if res["rc"]:
+        env.viol({"api": api, "symptom": "error-exit", "workers": "fresh-process", "type": f"rc={res['rc']}"},
+                 {"stderr": res["err"][-600:]})
+        return
+    obs = observe(res)
+    if obs != inproc:
+        env.viol({"api": api, "symptom": "differs-from-fresh-process", "what": what},
+                 {"fresh_process": obs, "in_process_after_other_calls": inproc})
 
 
 def wipe(path):
